@@ -370,8 +370,36 @@ package moss
 //@   trusted the lower level is read through an abstract function of the wrapper and the key
 //@   ensures r1 == nil ==> r0 == llGet(w, key)
 
+// Deferred sorting (C01, C03, C09): a segment whose sorting was deferred holds
+// a ticket channel; closed(waitSortedCh) is the ghost "its sorting has
+// completed".  Before a stack is read, every segment of the requested levels
+// must have completed sorting - also one that another goroutine is sorting.
+//@ pure func sortedNow(a *segment) bool = a.needSorterCh == nil || closed(a.waitSortedCh)
+//@ func Segment.RequestSort
+//@   attr delegate *segment
+//@ func (a *segment) RequestSort(synchronous bool) bool
+//@   trusted the ticket protocol over needSorterCh/waitSortedCh (one goroutine takes the ticket and sorts, every other one waits on the latch) is abstracted; closed(waitSortedCh) stands for "sorting has completed"
+//@   requires a != nil
+//@   modifies elems(a.kvs), closedChans
+//@   ensures @done synchronous || result ==> sortedNow(a)
+//@   ensures @mono forall x *segment :: old(sortedNow(x)) ==> sortedNow(x)
 //@ func (ss *segmentStack) ensureSorted(minSeg, maxSeg int)
-//@   trusted deferred-sort ticket protocol abstracted: the segments under contract are sorted already, for which this is a no-op
+//@   props C01 C03 C09 C19
+//@   attr obligations ensures inv-entry inv-preserve P0
+//@   attr callers assume-noop the stacks under contract hold segments without a pending sort ticket, for which this is a no-op
+//@   requires ss != nil && 0 <= minSeg && maxSeg < len(ss.a) && minSeg - 1 <= maxSeg &&
+//@       (forall i int :: minSeg <= i && i <= maxSeg ==> typeIs(segIfc(ss, i), "*segment") && segAt(ss, i) != nil)
+//@   modifies allElems(uint64), closedChans
+//@   ensures @allSorted ss.options != nil && ss.options.DeferredSort ==> (forall i int :: minSeg <= i && i <= maxSeg ==> sortedNow(segAt(ss, i)))
+//@   ensures @mono forall x *segment :: old(sortedNow(x)) ==> sortedNow(x)
+//@   loop 1: modifies allElems(uint64), closedChans
+//@   loop 1: invariant minSeg - 1 <= seg && seg <= maxSeg
+//@   loop 1: invariant sorted ==> (forall i int :: seg < i && i <= maxSeg ==> sortedNow(segAt(ss, i)))
+//@   loop 1: invariant forall x *segment :: old(sortedNow(x)) ==> sortedNow(x)
+//@   loop 2: modifies allElems(uint64), closedChans
+//@   loop 2: invariant minSeg - 1 <= seg && seg <= maxSeg
+//@   loop 2: invariant forall i int :: seg < i && i <= maxSeg ==> sortedNow(segAt(ss, i))
+//@   loop 2: invariant forall x *segment :: old(sortedNow(x)) ==> sortedNow(x)
 
 //@ func (ss *segmentStack) get(key []byte, segStart int, base *segmentStack, readOptions ReadOptions) ([]byte, error)
 //@   dead op, val, err := b.Get(key)
